@@ -38,6 +38,10 @@ func lintObj(k gen.Kind, der []byte) (func(r lint.Registry) *zlint.ResultSet, bo
 }
 
 func judgeC07(rec *stats.Rec, c c07Case) (string, string) {
+	return apiGuard(func() (string, string) { return judgeC07Inner(rec, c) })
+}
+
+func judgeC07Inner(rec *stats.Rec, c c07Case) (string, string) {
 	if c.ParentConfig != nil {
 		g := lint.GlobalRegistry()
 		old := g.GetConfiguration()
